@@ -1773,6 +1773,13 @@ def run_correspondence(ctx, cases, tag):
             # three evaluations may differ by that much (sin^2 <= 1e-9 in this class)
             told = max(tol, 4e-5 * sc) if fname in ("line_to_line_segment", "line_segment_to_line_segment") else tol
             okd = _close(py, mf, told, ("d",), dsq=dsq)[0] or _close(py, mq, told, ("d",), dsq=dsq)[0]
+            if okd and fname.startswith("plane_to_") and fname != "plane_to_plane":
+                # vertex ties leave the in-plane position open, not the heights of the two points over the plane
+                # (this keeps the (plane point, hull point) order under comparison)
+                pp_, n_ = np.array(args["plane_point"], dtype=float), np.array(args["plane_normal"], dtype=float)
+                hgt = lambda r_: [float((np.array([float(x) for x in r_[k]]) - pp_).dot(n_)) for k in ("p1", "p2")]  # noqa
+                hp_, hm_ = hgt(py), hgt(mq)
+                okd = all(abs(a_ - b_) <= told for a_, b_ in zip(hp_, hm_))
             if okd:
                 continue
         ctx.broke("correspondence", name,
